@@ -1,16 +1,30 @@
 import UpfVerif.Driver.Gtpu
 import UpfVerif.Driver.Flags
+import UpfVerif.Driver.Ctl
+import UpfVerif.Driver.CtlProps
 open UpfVerif UpfVerif.Driver
 
 /-- stateless evaluators, by function name -/
 def evalT (fn : String) (args : List String) (impl : String) : Option Verdict :=
   match fn with
   | "gtpu.encode" => evalGtpu args impl
+  | "rx.retention" =>
+    match args with
+    | [t, n] =>
+      let tv := (t.toNat?.getD 0 : Int)
+      let want := tv * ((n.toNat?.getD 0 : Nat) + 1 : Int)
+      some { model := toString want,
+             propFails := if impl == toString want then [] else
+               [s!"C06 retention window for timeout {t} and maxRetrans {n} must be {want}, implementation uses {impl}"] }
+    | _ => none
   | _ =>
     if fn.startsWith "flags." then evalFlags fn args impl
     else none
 
 structure Counters where
+  ctl : Ctl.DrvState := {}
+  tbl : Ctl.TblState := {}
+  ps : CtlProps.PState := {}
   lines : Nat := 0
   checked : Nat := 0
   diffs : Nat := 0
@@ -30,11 +44,14 @@ partial def loop (h : IO.FS.Stream) (c : Counters) : IO Counters := do
     -- split at "="
     let args := rest.takeWhile (· ≠ "=")
     let res := String.intercalate " " ((rest.dropWhile (· ≠ "=")).drop 1)
-    match evalT fn args res with
+    let r : Option (Counters × Verdict) :=
+      if fn.startsWith "tbl." then (Ctl.evalTbl c.tbl fn args res).map fun (t, v) => ({ c with tbl := t }, v)
+      else (evalT fn args res).map fun v => (c, v)
+    match r with
     | none =>
       IO.println s!"BADLINE {c.lines} :: {line}"
       loop h { c with bad := c.bad + 1 }
-    | some v =>
+    | some (c, v) =>
       let mut c := { c with checked := c.checked + 1 }
       if v.model ≠ res then
         IO.println s!"DIFF {c.lines} {fn} model={v.model} impl={res} :: {line}"
@@ -45,9 +62,31 @@ partial def loop (h : IO.FS.Stream) (c : Counters) : IO Counters := do
       loop h c
   | "H" :: _ => loop h c
   | [] => loop h c
-  | _ =>
-    IO.println s!"BADLINE {c.lines} :: {line}"
-    loop h { c with bad := c.bad + 1 }
+  | tag :: _ =>
+    if tag ∈ ["C", "E", "O", "D", "X", "Z"] then
+      let (ctl', msgs0) := Ctl.feed c.ctl line
+      let mut msgs := msgs0
+      let mut ps := c.ps
+      if tag == "C" then
+        ps := { maxRetrans := Ctl.natD (Ctl.lookD (Ctl.kvs (words line)) "maxretrans" "3") }
+      if tag == "X" then
+        let p := c.ctl.pend
+        if p.ev.isSome then
+          let (ps', fails) := CtlProps.check ps p.evLine p.obs p.fault p.dump
+          ps := ps'
+          let hist := String.intercalate " ;; " (c.ctl.caseLine :: c.ctl.history.reverse)
+          msgs := msgs ++ fails.map fun f => s!"PROPFAIL {c.lines} {f} :: {hist}"
+      let mut c := { c with ctl := ctl', ps := ps }
+      if tag == "X" then c := { c with checked := c.checked + 1 }
+      for m in msgs do
+        IO.println m
+        if m.startsWith "DIFF" then c := { c with diffs := c.diffs + 1 }
+        else if m.startsWith "PROPFAIL" then c := { c with propfails := c.propfails + 1 }
+        else if m.startsWith "BADLINE" then c := { c with bad := c.bad + 1 }
+      loop h c
+    else do
+      IO.println s!"BADLINE {c.lines} :: {line}"
+      loop h { c with bad := c.bad + 1 }
 
 def main (_args : List String) : IO UInt32 := do
   let stdin ← IO.getStdin
